@@ -108,11 +108,7 @@ fn args_json<'tcx>(args: GenericArgsRef<'tcx>) -> J {
     J::Arr(v)
 }
 
-const GUARDS: [&str; 3] = [
-    "lock_api::rwlock::RwLockReadGuard",
-    "lock_api::rwlock::RwLockWriteGuard",
-    "lock_api::mutex::MutexGuard",
-];
+const GUARDS: [&str; 4] = ["RwLockReadGuard", "RwLockWriteGuard", "MutexGuard", "RwLockUpgradableReadGuard"];
 
 /// lock guards held *by value* inside a type: (guard kind, protected data type)
 fn guards_in<'tcx>(tcx: TyCtxt<'tcx>, t: Ty<'tcx>, depth: usize, out: &mut Vec<(String, String)>) {
@@ -122,15 +118,23 @@ fn guards_in<'tcx>(tcx: TyCtxt<'tcx>, t: Ty<'tcx>, depth: usize, out: &mut Vec<(
     match t.kind() {
         ty::Adt(adt, args) => {
             let p = path(tcx, adt.did());
-            if GUARDS.contains(&p.as_str()) {
+            let krate = tcx.crate_name(adt.did().krate).to_string();
+            let item = tcx.item_name(adt.did()).to_string();
+            if krate == "lock_api" && GUARDS.contains(&item.as_str()) {
                 let data = args.types().last().map(ty_str).unwrap_or_default();
-                let e = (p, data);
+                let e = (item, data);
                 if !out.contains(&e) {
                     out.push(e);
                 }
                 return;
             }
-            if adt.is_box() || p.starts_with("std::sync::Arc") || p.starts_with("alloc::sync::Arc") {
+            if adt.is_box() || p == "std::sync::Arc" || p == "alloc::sync::Arc" || p == "std::rc::Rc" {
+                // owning pointers: a guard behind Arc/Box/Rc is held for as long as the pointer lives
+                // (dashmap's iterators keep Arc<RwLockReadGuard>); their fields are raw pointers, so
+                // recurse into the pointee type argument instead
+                if let Some(inner) = args.types().next() {
+                    guards_in(tcx, inner, depth + 1, out);
+                }
                 return;
             }
             for f in adt.all_fields() {
